@@ -213,7 +213,7 @@ struct VSys {
 // USys: operands A,B,C (built by their own update ops), one union, the last result.
 struct OperandSpec { uint32_t k; std::vector<double> w; };
 struct USys {
-  enum { MAXJ = 16, OP_FEED = 48, OP_FEEDRV = 51, OP_RESULT = 54, OP_USERB = 55, OP_USERS = 56, OP_OSER = 57, NOPS = 60 };
+  enum { MAXJ = 16, OP_FEED = 48, OP_FEEDRV = 51, OP_RESULT = 54, OP_USERB = 55, OP_USERS = 56, OP_OSER = 57, OP_URESET = 60, NOPS = 61 };
   struct State {
     std::unique_ptr<Sk> opnd[3]; bool consumed[3]; size_t fed_updates[3];
     std::unique_ptr<Un> u; std::unique_ptr<Sk> result;
@@ -251,6 +251,7 @@ struct USys {
     if (i == OP_RESULT) return "res";
     if (i == OP_USERB) return "UserB";
     if (i == OP_USERS) return "UserS";
+    if (i == OP_URESET) return "Ureset";
     return std::string(1, L[i - OP_OSER]) + ".ser";
   }
   bool apply(State& s, size_t op, Ctx*) {
@@ -274,6 +275,8 @@ struct USys {
         s.result.reset();
         try { s.result.reset(new Sk(s.u->get_result())); }
         catch (const std::exception& e) { s.broken = std::string("get_result-threw|get_result threw: ") + e.what(); }
+      } else if (op == OP_URESET) {   // a reset union is a new union: what was fed before no longer counts
+        s.result.reset(); s.u->reset(); s.fed = Truth();
       } else if (op == OP_USERB || op == OP_USERS) {
         s.result.reset();
         try {
